@@ -198,12 +198,14 @@ def _one(case, j, ctx):
             return
         # ---- (i) equivariance
         ctx.count("equivariance_checks")
+        ymax = max(1.0, float(np.max(np.abs(y))))
         if method == "doublemad":
             med = np.median(x.astype(np.float64), axis=axis, keepdims=True)
             sel = x.astype(np.float64) != med
-            okq = np.allclose(Sy[sel], abs(a) * S[sel], rtol=1e-9, atol=1e-12)
+            okq = np.allclose(Sy[sel], abs(a) * S[sel], rtol=1e-9, atol=1e-9 * ymax)
         else:
-            okq = Sy.shape == S.shape and np.allclose(Sy, abs(a) * S, rtol=1e-9, atol=1e-12 * abs(a))
+            # absolute floor: a scale that is exactly 0 for x may come out as rounding noise (1e-10 of the data level) for a*x+b
+            okq = Sy.shape == S.shape and np.allclose(Sy, abs(a) * S, rtol=1e-9, atol=1e-9 * ymax)
         if not okq:
             ctx.violation(f"not-equivariant:{lab}:{cls}", f"scale(a*x+b) = {np.ravel(Sy)[:3].tolist()} but |a|*scale(x) = {(abs(a) * np.ravel(S))[:3].tolist()} (a={a}, b={b})", one)
             return
